@@ -363,6 +363,67 @@ def run(tier, rep):
             rep.violation(f"linked-type-declarations-differ:special:{sname}", {"whole": tdecls(whole["go"]), "linked": tdecls(open(f"{proj}/out/linked.go").read())})
         if imps(open(f"{proj}/out/linked.go").read()) != imps(whole["go"]):
             rep.violation(f"linked-imports-differ:special:{sname}", {"whole": imps(whole["go"]), "linked": imps(open(f"{proj}/out/linked.go").read())})
+    # ---- histories: Lib and Main are built; Lib is edited in a way that changes what Main was compiled against WITHOUT changing any
+    # name or type (same-typed fields swapped, variants reordered, same-typed parameters swapped) or with it (field retyped); only Lib
+    # is rebuilt; everything is linked.  Either link refuses, or what it links behaves like the whole-program compilation of the
+    # sources as they are now.
+    lib0 = ("package Lib\n\nstruct Acct { id: int32, balance: int32, tag: string }\nenum Kind { Small, Big(int32), Huge(int32) }\n"
+            "fn open(i: int32, b: int32) -> Acct { Acct { id: i, balance: b, tag: \"t\" } }\nfn kind(b: int32) -> Kind { if b > 50 { Kind::Big(b) } else { Kind::Small } }\n"
+            "fn sub(a: int32, b: int32) -> int32 { a - b }\n")
+    main0 = ("package Main\nimport Lib\n\nfn show(k: Lib::Kind) -> string { match k { Lib::Kind::Small => \"small\", Lib::Kind::Big(n) => \"big \" + int32_to_string(n), Lib::Kind::Huge(n) => \"huge \" + int32_to_string(n) } }\n"
+             "fn main() {\n    let a = Lib::open(7, 100);\n    let _ = string_println(int32_to_string(a.balance) + \" \" + int32_to_string(a.id) + \" \" + show(Lib::kind(a.balance)) + \" \" + show(Lib::Kind::Huge(3)) + \" \" + int32_to_string(Lib::sub(9, 2)));\n"
+             "    let b = Lib::Acct { id: 1, balance: 2, tag: \"u\" };\n    let _ = string_println(int32_to_string(b.id) + b.tag);\n    ()\n}\n")
+    hedits = {"same-typed-fields-swapped": lib0.replace("id: int32, balance: int32, tag: string", "balance: int32, id: int32, tag: string"),
+              "fields-rotated": lib0.replace("id: int32, balance: int32, tag: string", "tag: string, id: int32, balance: int32"),
+              "variants-reordered": lib0.replace("Small, Big(int32), Huge(int32)", "Huge(int32), Small, Big(int32)"),
+              "same-typed-parameters-swapped": lib0.replace("fn sub(a: int32, b: int32) -> int32 { a - b }", "fn sub(b: int32, a: int32) -> int32 { a - b }"),
+              "function-body-only": lib0.replace("{ a - b }", "{ a - b + 0 }"),
+              "unused-function-added": lib0 + "fn extra() -> int32 { 1 }\n"}
+    stale_links = stale_refused = 0
+    for hn, newlib in hedits.items():
+        for rebuilt in (("Lib",), ("Lib", "Main")):
+            hp = os.path.join(root, f"hist-{hn}-{len(rebuilt)}")
+            os.makedirs(hp + "/Lib"); os.makedirs(hp + "/out")
+            open(hp + "/Lib/lib.gom", "w").write(lib0); open(hp + "/main.gom", "w").write(main0)
+            src_of = {"Lib": hp + "/Lib/lib.gom", "Main": hp + "/main.gom"}
+            for q in ("Lib", "Main"):
+                ok, err, pan = cli(["build", "--package", q, "--input", src_of[q], "--interface-path", f"{hp}/out", "--output", f"{hp}/out/{q}"])
+                if not ok:
+                    raise ToolError(f"history family: initial build of {q} failed: {err}")
+            open(hp + "/Lib/lib.gom", "w").write(newlib)
+            okb = True
+            for q in rebuilt:
+                ok, err, pan = cli(["build", "--package", q, "--input", src_of[q], "--interface-path", f"{hp}/out", "--output", f"{hp}/out/{q}"])
+                steps += 1
+                if pan:
+                    rep.violation(f"panic:build:history:{hn}", {"package": q, "stderr": err})
+                okb = okb and ok
+            if not okb:
+                continue
+            ok, err, pan = cli(["link", "--input", f"{hp}/out/Lib.core", f"{hp}/out/Main.core", "--output", f"{hp}/out/linked.go"])
+            steps += 1
+            if pan:
+                rep.violation(f"panic:link:history:{hn}", {"rebuilt": list(rebuilt), "stderr": err}); continue
+            if not ok:
+                stale_refused += 1
+                if len(rebuilt) == 2:
+                    rep.violation(f"link-verdict:history:{hn}:everything-rebuilt:expected-ok", {"stderr": err})
+                continue
+            stale_links += 1
+            a = gv("compile", [{"id": "w", "path": hp + "/main.gom"}])[0]
+            if a["verdict"] != "ok":
+                rep.violation(f"whole-program-rejects-what-separate-accepts:history:{hn}", {"verdict": a["verdict"], "diags": [d["msg"] for d in a.get("diags", [])][:3]}); continue
+            shape_ = f"history-{hn}-rebuilt-{'+'.join(rebuilt)}"
+            for nm, text in ((f"whole:{shape_}:0", a["go"]), (f"linked:900:{shape_}:0:{hn}", open(f"{hp}/out/linked.go").read())):
+                rec, e = gopipe.go_record(nm, text)
+                if e:
+                    rep.violation(f"go-syntax:history:{hn}", {"error": e})
+                else:
+                    go_recs.append(rec)
+    rep.coverage["histories_linked"] = stale_links
+    rep.coverage["histories_refused_by_link"] = stale_refused
+    if stale_links < 6 or stale_refused < 3:
+        raise ToolError(f"vacuity: history family linked {stale_links}, refused {stale_refused}")
     # ---- GoStatic + GoSem over all Go texts; linked outcome must equal the whole-program outcome of the same (shape, flavour)
     static, st1 = gopipe.run_sharded("GoStatic", "GoStatic.cfg", go_recs, name="c14-static")
     sem_recs = [dict(rc, ast=gohoist.hoist(rc["ast"])) for rc in go_recs]
